@@ -104,13 +104,45 @@ fn clip(s: &str) -> String {
 // oracles
 
 /// C01: no panic.  Returns the verdict.
+/// Shrink a failing input: remove chunks (halves, quarters, ... single bytes) as long as `fails`
+/// still holds, with a budget of implementation evaluations.  Only the implementation is consulted.
+fn shrink(b: &[u8], fails: &dyn Fn(&[u8]) -> bool) -> Vec<u8> {
+    let mut cur = b.to_vec();
+    let mut budget = 600usize;
+    let mut chunk = std::cmp::max(cur.len() / 2, 1);
+    while chunk >= 1 && budget > 0 {
+        let mut i = 0;
+        let mut progress = false;
+        while i < cur.len() && budget > 0 {
+            let end = std::cmp::min(cur.len(), i + chunk);
+            let mut cand = cur[..i].to_vec();
+            cand.extend_from_slice(&cur[end..]);
+            budget -= 1;
+            if !cand.is_empty() && fails(&cand) {
+                cur = cand;
+                progress = true;
+            } else {
+                i += chunk;
+            }
+        }
+        if chunk == 1 && !progress {
+            break;
+        }
+        if !progress {
+            chunk /= 2;
+        }
+    }
+    cur
+}
+
 fn oracle_c01(ctx: &mut Ctx, b: &[u8], note: &'static str) -> String {
     let v = ctx.eval(b, note);
     if v == "PANIC" {
+        let small = if ctx.log.n_oracle_failures < 20 { shrink(b, &|x| verdict(x) == "PANIC") } else { b.to_vec() };
         ctx.fail(
             "panic",
-            format!("parser panicked on {}", show_bytes(b)),
-            &[b],
+            format!("parser panicked on {} (found as {})", show_bytes(&small), show_bytes(b)),
+            &[&small],
         );
     } else if class_of(&v) != "inc" || b.len() > 2 {
         ctx.log.nontrivial(&hex(b));
@@ -187,14 +219,19 @@ fn oracle_c09(ctx: &mut Ctx, b: &[u8], note: &'static str) {
         ctx.log.nontrivial(&hex(b));
         ctx.log.count(if has_lit { "frame:literal" } else { "frame:plain" });
         if v == "INC" {
+            let small = if ctx.log.n_oracle_failures < 20 {
+                shrink(b, &|x| frame_end(x).is_some() && verdict(x) == "INC")
+            } else {
+                b.to_vec()
+            };
             ctx.fail(
                 "stalled",
                 format!(
-                    "buffer holds a complete frame of {} bytes but the parser answers Incomplete: {}",
-                    end,
+                    "buffer holds a complete frame but the parser answers Incomplete: {} (found as {})",
+                    show_bytes(&small),
                     show_bytes(b)
                 ),
-                &[b],
+                &[&small],
             );
         } else if !has_lit {
             if let Some(n) = consumed_of(&v) {
